@@ -49,7 +49,9 @@ impl<'a> SpannedText<'a> {
 
     /// Calculate the line and column position, in characters.
     fn linecol(&self, pos: usize) -> (usize, usize) {
-        assert!(pos < self.text.len());
+        // `pos == len` is a valid position: the end of the text, e.g. the
+        // start of an empty span at the end or the end of the last span.
+        assert!(pos <= self.text.len());
         let mut line: usize = 1;
         let mut col: usize = 1;
         for c in self.text[0..pos].chars() {
